@@ -243,6 +243,12 @@ func (w *c06World) probe(q c06Req, target *c06Sess) (clientWire []byte) {
 		sc.SessionDuration, sc.SessionLease = c06Duration, c06Lease
 		sc.SessionCache = c06SrvCache
 	}
+	if q.keyKind == "right" && !q.reply && q.raw == nil && target == &w.K {
+		// this probe goes to a server whose own policy leaves authentication OPTIONAL, so
+		// that the restored authentication status is observed rather than pre-judged by
+		// the server's REQUIRED-policy check (which the reply-requesting probe exercises)
+		sc.Authentication = security.SecurityOptional
+	}
 	addr := q.addr
 	r := hsRun(hsOpts{ServerCfg: sc, ClientScript: c06Requester(q, o), App: true, ClientAddr: addr})
 	resumed := r.S.Err == nil
